@@ -788,6 +788,12 @@ class AbsSlice:
     # ---- the Slice API
     def abs_attr(s, it, a, node):
         if a == 'remaining_bits':
+            # what is left depends on which constructor comes next: decide that first (as a read would), then bound the rest
+            for _ in range(8):
+                i = s.first('bits')
+                if i is None or s.toks[i].kind != 'TYPE':
+                    break
+                s.expand_type(i)
             lo, hi = s.bit_bounds()
             if hi is not None and lo == hi:
                 return K(lo)
